@@ -1258,7 +1258,8 @@ main (int argc, char **argv)
               memcpy (pre_img, o->p, CD_SIZE);
             }
           run_call (isr ? call_setkey_r : call_setkey);
-          fprintf (out, "{\"e\":\"%s\",\"o\":%d,\"key\":\"%s\",\"errno\":%d", cmd, isr ? id : -1, t1, r_errno);
+          fprintf (out, "{\"e\":\"%s\",\"o\":%d,\"key\":\"%s\",\"errno\":%d,\"kb\":", cmd, isr ? id : -1, t1, r_errno);
+          jstr_codes (k8, 8);
           if (o)
             {
               int appsame = !memcmp (o->p, pre_img, OFF_RESERVED);
@@ -1298,6 +1299,10 @@ main (int argc, char **argv)
           fprintf (out, "{\"e\":\"%s\",\"o\":%d,\"in\":\"%s\",\"ed\":%d,\"errno\":%d,\"bits01\":%d,\"res\":", cmd,
                    isr ? id : -1, t1, a_edflag, r_errno, bits01);
           jhex (r8, 8);
+          fprintf (out, ",\"ib\":");
+          jstr_codes (b8, 8);
+          fprintf (out, ",\"rb\":");
+          jstr_codes (r8, 8);
           if (o)
             fprintf (out, ",\"appsame\":%d,\"rz\":%d,\"ssame\":%d", !memcmp (o->p, pre_img, OFF_RESERVED),
                      redzones_ok (o), !memcmp (o->p + OFF_RESERVED, pre_img + OFF_RESERVED, CD_SIZE - OFF_RESERVED));
